@@ -65,7 +65,7 @@ class MultiVector:
             else:
                 grades = tuple(range(algebra.d + 1))
 
-        if algebra.graded and keys and keys != algebra.indices_for_grades[grades]:
+        if algebra.graded and keys and tuple(keys) != algebra.indices_for_grades[grades]:
             raise ValueError(f"In graded mode, the keys should be equal to "
                              f"those expected for a multivector of {grades=}.")
 
@@ -73,6 +73,13 @@ class MultiVector:
         if isinstance(values, Mapping):
             keys, values = zip(*values.items()) if values else (tuple(), list())
             values = list(values)
+            if algebra.graded and keys:
+                # The keys only become known here, so the check on complete grades has to be made here.
+                keys = tuple(k if k in algebra.bin2canon else algebra.canon2bin[k] for k in keys)
+                own_grades = tuple(sorted({format(k, 'b').count('1') for k in keys}))
+                if keys != algebra.indices_for_grades[own_grades]:
+                    raise ValueError(f"In graded mode, the keys should be equal to "
+                                     f"those expected for a multivector of grades={own_grades}.")
         elif len(values) == len(algebra.indices_for_grades[grades]) and not keys:
             keys = algebra.indices_for_grades[grades]
         elif name and not values:
